@@ -719,8 +719,9 @@ class ParserField:
                     # if no getter function
                     # dependant will not affect
                     field.add_dependant(self.name)
-                if dep not in dependencies:
-                    dependencies.append(dep)
+                if field.name not in dependencies:
+                    # the name the parsed result uses (the key of `fields` is lower-cased for case-insensitive fields)
+                    dependencies.append(field.name)
                 if field.attname not in attr_dependencies:
                     attr_dependencies.append(field.attname)
             self.dependencies = set(dependencies)
